@@ -98,6 +98,13 @@ let run_array toks =
        let s = ref (viter_new v) in
        add ("L" ^ zs (vlen v !s));
        List.iter (fun op ->
+         if op = "l" || op = "n" then begin
+           (* Iterator::last / count on a copy of the state: the items still to come *)
+           let rec rest st acc = (match vnext v st with (st', Some x) -> rest st' (x :: acc) | (_, None) -> acc) in
+           let items = rest !s [] in
+           if op = "l" then (match items with x :: _ -> add (" T" ^ zs x) | [] -> add " TN")
+           else add (" C" ^ string_of_int (List.length items))
+         end else begin
            let k = if op = "x" then 0 else int_of_string op in
            let last = ref None in
            let stop = ref false in
@@ -109,7 +116,7 @@ let run_array toks =
              end
            done;
            (match !last with Some x -> add (" S" ^ zs x) | None -> add " N");
-           add (" L" ^ zs (vlen v !s)))
+           add (" L" ^ zs (vlen v !s)) end)
          (* "c": the history continues on a clone of the iterator - in the model a state is a value, its copy is itself *)
          (List.filter (fun op -> op <> "c") (S.split_on_char ',' ops)))
   (* View::to_array: the model's [view_to_array], then [get] at every index of the copy and the copy's own views *)
